@@ -81,6 +81,9 @@ const (
 	vHReadN        // read n complete datagrams (replying), then return
 	vHStall        // wait for release, then behave as `then`
 	vHIdle         // echo one datagram, let the idle timer expire in the next Read, wait for release, return
+	// read the first piece of a datagram larger than the buffer, Close the connection, wait for release, then
+	// Read again: the remainder that was held must not be served any more (io.EOF, no bytes, no panic)
+	vHCloseRead
 )
 
 type vHKind struct {
@@ -199,6 +202,12 @@ func vC09Corpus() []vPlan {
 		vSend{Pre: vPreRelease, Targets: []int{1}, NoSend: true},
 		vSend{Client: 0, Size: 80, Pre: vPreWaitEnded, Expect: 1},
 		mk(0, 81))
+	ps = append(ps, p)
+	// a jumbo datagram read in part, Close, other clients' datagrams, then Read again on the closed association
+	p = vPlan{Name: "read-after-close-with-partial-datagram", NClients: 3, Kinds: map[string]vHKind{"0/0": {Mode: vHCloseRead, Buf: 2048}}}
+	p.Sends = []vSend{mk(0, 9000), {Client: 1, Size: 9000, Pre: vPreSettle}, mk(2, 9000), mk(1, 8999), mk(2, 9000), mk(1, 9000),
+		{Pre: vPreRelease, Targets: []int{0}, NoSend: true},
+		{Client: 0, Size: 300, Pre: vPreWaitEnded, Expect: 1}, mk(0, 9000)}
 	ps = append(ps, p)
 	// one interleaved plan per client address set (clients differ in port / IP / IPv6 zone / family / type only)
 	for k := 1; k < vC09AddrKinds; k++ {
@@ -677,6 +686,44 @@ func (r *vC09Run) handle(cx *Connection) error {
 				_, _ = cx.Write(vC09Reply(client, last.id, a.ord))
 			}
 		}
+		if mode == vHCloseRead && err == nil {
+			ended(fmt.Sprintf("ORet %d", a.ord)) // Close begins
+			_ = cx.Close()
+			l.mu.Lock()
+			l.add(fmt.Sprintf("OClosed %d", a.ord))
+			l.mu.Unlock()
+			<-a.release // other clients' datagrams arrive meanwhile; the released buffer may be reused for them
+			for i := 0; i < 4; i++ {
+				m, err := cx.Read(buf)
+				if m > 0 {
+					l.mu.Lock()
+					own := false
+					if cur != nil {
+						want := vC09Payload(cur.client, cur.id, cur.size)
+						own = curOff+m <= len(want) && bytes.Equal(buf[:m], want[curOff:curOff+m])
+					}
+					if own {
+						l.fail("C09:read:bytes-after-close", fmt.Sprintf("association #%d of client %d: Read after Close returned %d more bytes of datagram %d (offset %d) instead of io.EOF", a.cord, client, m, cur.id, curOff))
+						l.add(fmt.Sprintf("ORead %d %d false %d %d", a.ord, cur.id, curOff, m))
+					} else {
+						l.fail("C09:demux:wrong-client", fmt.Sprintf("association #%d of client %d: Read after Close returned %d bytes that are not this client's (a buffer that is back in the pool, now holding another client's datagram)", a.cord, client, m))
+						l.add(fmt.Sprintf("ORead %d (-1) false %d %d", a.ord, curOff, m))
+					}
+					l.mu.Unlock()
+					break
+				}
+				if errors.Is(err, io.EOF) {
+					l.mu.Lock()
+					l.add(fmt.Sprintf("OEof %d", a.ord))
+					l.mu.Unlock()
+					break
+				}
+				if err != nil {
+					break
+				}
+			}
+			return nil
+		}
 		if err != nil {
 			if errors.Is(err, io.EOF) {
 				ended(fmt.Sprintf("OEof %d", a.ord))
@@ -996,7 +1043,7 @@ func (l *vC09Log) kindReads(plan *vPlan, client, endedOrd int) bool {
 		}
 	}
 	switch k.Mode {
-	case vHEcho, vHIdle:
+	case vHEcho, vHIdle, vHCloseRead:
 		return true
 	case vHReadN:
 		return k.N > 0
@@ -1153,6 +1200,8 @@ func TestVerifC09(t *testing.T) {
 			out.Fail("C09:loop:panic-close-of-closed-channel", fmt.Sprintf("the server process died with %q during scenario %q", first, pl.Name), pl)
 		case strings.Contains(first, "all goroutines are asleep"):
 			out.Fail("C09:loop:deadlock", fmt.Sprintf("the server process died with %q during scenario %q", first, pl.Name), pl)
+		case strings.Contains(first, "nil pointer dereference") && strings.Contains(msg, "packetConn).Read"):
+			out.Fail("C09:loop:panic-other", fmt.Sprintf("the server process died with %q in packetConn.Read during scenario %q", first, pl.Name), pl)
 		case strings.Contains(first, "test timed out"):
 			t.Fatalf("child process timed out in scenario %d (%s):\n%s", cur, pl.Name, msg)
 		case first != "":
